@@ -1169,6 +1169,134 @@ def search_utils(ctx):
     S.done()
 
 
+# Source shared by the harness (exec'ed below) and the replay snippets: states that are short
+# sums of tensor products, so that the textbook reduced state is a short sum of small Kronecker
+# products — no 2^n x 2^n reference computation is needed on 6..10 qubits.
+PRODUCT_SUM_SRC = '''
+def kron_all(ms, one):
+    out = one
+    for m in ms:
+        out = np.kron(out, m)
+    return out
+
+def operator_terms(kind, coeff, factors):
+    """the state as sum_t w_t (x)_q M[t][q] (2x2 factors).  'dm': factors are single-qubit
+    density matrices, coeff the mixture weights;  'sv': factors are single-qubit vectors u[i][q],
+    psi ~ sum_i c_i (x)_q u[i][q], so |psi><psi| has the terms (i, j) with |u_iq><u_jq|."""
+    coeff, factors = np.asarray(coeff), np.asarray(factors)
+    if kind == "dm":
+        return [(coeff[t], factors[t]) for t in range(len(coeff))]
+    terms = [(coeff[i] * np.conj(coeff[j]), np.einsum("qa,qb->qab", factors[i], np.conj(factors[j])))
+             for i in range(len(coeff)) for j in range(len(coeff))]
+    norm = sum(w * np.prod([np.trace(m) for m in ms]) for w, ms in terms)
+    return [(w / norm, ms) for w, ms in terms]
+
+def build_state(kind, coeff, factors):
+    coeff, factors = np.asarray(coeff), np.asarray(factors)
+    if kind == "dm":
+        return sum(coeff[t] * kron_all(factors[t], np.ones((1, 1))) for t in range(len(coeff)))
+    psi = sum(coeff[i] * kron_all(factors[i], np.ones(1)) for i in range(len(coeff)))
+    return psi / np.linalg.norm(psi)
+
+def reduced_state(kind, coeff, factors, traced):
+    """Tr_traced: every traced factor contributes its trace, the kept factors stay in ascending qubit order."""
+    n = np.asarray(factors).shape[1]
+    keep = [q for q in range(n) if q not in set(traced)]
+    return sum(w * np.prod([np.trace(ms[q]) for q in traced]) * kron_all([ms[q] for q in keep], np.ones((1, 1)))
+               for w, ms in operator_terms(kind, coeff, factors))
+'''
+_PS = {"np": np}
+exec(PRODUCT_SUM_SRC, _PS)  # noqa: S102  (our own source)
+
+
+def traced_sets_large(rng, n, nrandom):
+    """traced lists leaving few kept qubits (and a few leaving many) on an n-qubit register: kept = the last k,
+    the first k-1 plus the last, a middle block plus the last, every other qubit, random small sets that contain
+    one of the highest qubits together with lower ones; each list in ascending, descending or shuffled order."""
+    keeps = []
+    for k in (1, 2, 3, 4):
+        if k < n:
+            keeps.append(tuple(range(n - k, n)))
+            keeps.append(tuple(range(k - 1)) + (n - 1,))
+    mid = n // 2
+    keeps += [(mid, n - 1), (mid - 1, mid, n - 1), (mid - 1, mid, n - 2, n - 1), (0, n - 2), (1, mid, n - 2),
+              tuple(range(0, n, 2)), tuple(range(1, n, 2)), tuple(range(1, n)), tuple(q for q in range(n) if q != mid)]
+    for _ in range(nrandom):
+        k = rng.randint(2, 4)
+        hi = rng.randrange(max(n - 2, 0), n)
+        keeps.append(tuple(sorted(rng.sample(range(hi), min(k - 1, hi)) + [hi])))
+    for _ in range(max(1, nrandom // 2)):
+        keeps.append(tuple(sorted(rng.sample(range(n), rng.randint(1, n - 1)))))
+    out, seen = [], set()
+    for i, keep in enumerate(keeps):
+        keep = tuple(sorted(set(q for q in keep if 0 <= q < n)))
+        if keep in seen:
+            continue
+        seen.add(keep)
+        tr = [q for q in range(n) if q not in keep]
+        mode = ("ascending", "descending", "shuffled")[i % 3]
+        if mode == "descending":
+            tr.reverse()
+        elif mode == "shuffled":
+            rng.shuffle(tr)
+        out.append((tr if i % 2 == 0 else tuple(tr), mode))
+    return out
+
+
+def search_partial_trace_large(ctx):
+    """partial_trace beyond the sizes of the exact correspondence suite (6..10 qubits), both branches: correlated
+    density matrices  sum_t w_t (x)_q rho_tq  and entangled state vectors  sum_i c_i (x)_q u_iq  with pairwise
+    different single-qubit factors; the definition gives  sum_t w_t prod_{q traced} tr(rho_tq) (x)_{q kept, ascending} rho_tq."""
+    from qibo.quantum_info import partial_trace
+
+    T = Tally(ctx, "C18_search_partial_trace_large_registers")
+    rng, g = ctx.rng, nprng(ctx)
+    tol = 1e-9
+    sizes = [(6, 3), (7, 3), (8, 4), (9, 8), (10, 6)] if not ctx.thorough else [(6, 8), (7, 8), (8, 10), (9, 24), (10, 16)]
+    for n, nrandom in sizes:
+        sets = traced_sets_large(rng, n, nrandom)
+        for kind in ("dm", "sv"):
+            if kind == "dm":
+                w = float(g.uniform(0.3, 0.7))
+                coeff = np.array([w, 1 - w])
+                factors = np.array([[rand_dm(g, 2) for _ in range(n)] for _ in range(2)])
+            else:
+                coeff = g.normal(size=2) + 1j * g.normal(size=2)
+                factors = np.array([[rand_sv(g, 2) for _ in range(n)] for _ in range(2)])
+            state = _PS["build_state"](kind, coeff, factors)
+            frozen = state.copy()
+            name = "density-matrix" if kind == "dm" else "statevector"
+            key = f"partial_trace:{name}:large-register"
+            for tr, mode in sets:
+                ctx.case(("ptrace-large", n, tuple(tr), kind))
+                ctx.stat(f"ptrace_large_{kind}_n{n}_kept{n - len(tr)}_{mode}")
+                exp = _PS["reduced_state"](kind, coeff, factors, list(tr))
+                replay = (HEADER + PRODUCT_SUM_SRC + f"kind, coeff, factors = {kind!r}, {_lit(coeff)}, {_lit(factors)}\n"
+                          f"traced = {tr!r}\nstate = build_state(kind, coeff, factors)\n")
+                try:
+                    got = np.asarray(partial_trace(state, tr))
+                except Exception as e:  # noqa: BLE001
+                    T.fail(key + ":raises", f"partial_trace({name} on {n} qubits, {tr!r}) raises {type(e).__name__}: {str(e)[:120]}",
+                           replay + "got = partial_trace(state, traced)\n", f"a {exp.shape[0]}x{exp.shape[0]} matrix", repr(e))
+                    continue
+                if not np.array_equal(state, frozen):
+                    T.fail(key + ":mutates-input", f"partial_trace({name} on {n} qubits, {tr!r}) modifies its input array",
+                           replay + "before = state.copy()\npartial_trace(state, traced)\nassert np.array_equal(before, state)\n")
+                    state = frozen.copy()
+                err = float(np.max(np.abs(got - exp))) if got.shape == exp.shape else float("inf")
+                if not err <= tol:
+                    keep = [q for q in range(n) if q not in tr]
+                    T.fail(key, f"partial_trace of a {name.replace('-', ' ')} on {n} qubits (sum of two tensor products), traced={tr!r} ({mode}), "
+                                f"kept={keep}: differs from sum_t w_t prod_traced tr(rho_tq) (x)_kept rho_tq (kept qubits ascending) by {err:.3g}",
+                           replay + "got = np.asarray(partial_trace(state, traced))\nexp = reduced_state(kind, coeff, factors, list(traced))\n"
+                                    f"assert got.shape == exp.shape, (got.shape, exp.shape)\nerr = float(np.max(np.abs(got - exp)))\nassert err <= {tol!r}, err\n",
+                           expected=f"{exp.shape[0]}x{exp.shape[0]} matrix, first row {np.round(exp[0, :4], 6).tolist()}",
+                           observed=f"shape {got.shape}, first row {np.round(np.atleast_2d(got)[0, :4], 6).tolist()}, max deviation {err:.3g}")
+                if len(ctx.samples) < 14 and n >= 9 and not any(isinstance(x, dict) and x.get("op") == "partial_trace_large" and x.get("input") == kind for x in ctx.samples):
+                    ctx.sample({"op": "partial_trace_large", "n": n, "traced": list(tr), "input": kind, "order": mode})
+    T.done()
+
+
 def search_vector_inputs(ctx):
     """DESIGN F16 and its siblings: every measure that accepts both state vectors and density
     matrices, on many random normalised vectors whose computed norm is 1 only up to rounding:
@@ -1604,7 +1732,7 @@ def run(ctx):
     build_and_audit(ctx, PROP, MODULES + EXTRA_MODULES, THEOREMS)
     suites = (corr_partial_trace, corr_partial_transpose, corr_schmidt, corr_contractions, corr_classical,
               search_metrics, search_classical_entropies, search_quantum_entropies, search_entanglement,
-              search_utils, search_vector_inputs, search_generators)
+              search_utils, search_partial_trace_large, search_vector_inputs, search_generators)
     np_state = np.random.get_state()
     for suite in suites:
         try:
@@ -1634,7 +1762,8 @@ def run(ctx):
         "purity / Hilbert-Schmidt / overlap contractions; hamming_weight/distance on ints, strings, lists, tuples, arrays; total variation on rationals. "
         "search (1e-8 unless a rank-deficient fractional power is involved): every public measure of metrics/entropies/entanglement/utils against references written in the harness "
         "on vectors, pure, eps-from-pure (1e-6..1e-12), rank-deficient, generic and maximally mixed states, both argument orders, bases 2/e/10(/5/0.5), alpha 0,.3,.5,1,1.5,2,3,3.5,inf; "
-        "all bipartitions (unsorted); generators: every option combination x seeds: kind validity, reproducibility, int vs Generator seed, global RNG untouched")
+        "all bipartitions (unsorted); partial_trace of density matrices and state vectors on 6..10 qubits (sums of two tensor products with pairwise different "
+        "single-qubit factors, traced lists ascending / descending / shuffled leaving 1-4 or many kept qubits) against the Kronecker product of the kept factors; generators: every option combination x seeds: kind validity, reproducibility, int vs Generator seed, global RNG untouched")
     ctx.assumptions += [
         "values of spectral measures rest on numpy's eigh/svd (trusted) in both the code and the references; what is proved is the index bookkeeping (partial trace / transpose / Schmidt reshape), "
         "the purity-type contractions, the classical distances and the kind-validity algebra of the generators",
